@@ -191,6 +191,39 @@ func NewRecorder(id string) *Recorder {
 	return r
 }
 
+// AddEnumerated accounts for executions of an exhaustive enumeration: evals
+// executions, of which distinct were non-trivial (distinct by construction).
+func (r *Recorder) AddEnumerated(evals, distinct int) {
+	r.mu.Lock()
+	defer r.mu.Unlock()
+	r.evals += evals
+	n, _ := r.extra["distinct_extra"].(int)
+	r.extra["distinct_extra"] = n + distinct
+}
+
+// AddSample appends a sample case (any JSON-serialisable value).
+func (r *Recorder) AddSample(v interface{}) {
+	b, err := json.Marshal(v)
+	if err != nil {
+		return
+	}
+	r.mu.Lock()
+	defer r.mu.Unlock()
+	if len(r.samples) < r.maxSamples+2 {
+		r.samples = append(r.samples, b)
+	}
+}
+
+// Violate records a violation found outside rapid (enumerations).
+func (r *Recorder) Violate(sig, msg string, c interface{}) {
+	b, _ := json.Marshal(c)
+	r.mu.Lock()
+	defer r.mu.Unlock()
+	r.viols = append(r.viols, violationOut{Sig: sig, Msg: msg, Case: b})
+}
+
+func (r *Recorder) Known(sig string) bool { return r.known[sig] }
+
 func (r *Recorder) SetExtra(k string, v interface{}) {
 	r.mu.Lock()
 	defer r.mu.Unlock()
